@@ -212,7 +212,12 @@ pub fn stream_strategy(max_len: usize) -> impl Strategy<Value = QStream> {
         3 => vec(0.0..1.0f64, 16..120),
         2 => vec(0.0..1.0f64, 120..(max_len.max(121) + 1)),
     ];
-    (p_strategy(), 0..KINDS, lens).prop_map(|(p, kind, raw)| QStream { p, xs: stream_values(kind, &raw) })
+    // scale by an exact power of two: the algorithm is scale-equivariant, the magnitudes are not
+    let scale = prop_oneof![5 => Just(0i32), 1 => proptest::sample::select(vec![-900i32, -600, -300, -100, 100, 300, 600, 900])];
+    (p_strategy(), 0..KINDS, lens, scale).prop_map(|(p, kind, raw, k)| {
+        let f = 2f64.powi(k);
+        QStream { p, xs: stream_values(kind, &raw).into_iter().map(|x| x * f).collect() }
+    })
 }
 
 /// i-th stream of length `len` over `alpha`
@@ -250,12 +255,15 @@ pub fn paper_example() -> Vec<QStream> {
         v.push(QStream { p, xs: r });
         v.push(QStream { p, xs: (0..1000).rev().map(|i| i as f64).collect() });
         v.push(QStream { p, xs: (0..1000).map(|i| i as f64).collect() });
+        for k in [-900, -600, 600, 900] {
+            v.push(QStream { p, xs: obs.iter().map(|x| x * 2f64.powi(k)).collect() });
+        }
     }
     v
 }
 
 pub fn run(cx: &Ctx) {
-    cx.set_rule("cases = (p, stream): p from {0, 1, 0.5, 0.1, 0.2, 0.25, 0.9, 0.99} or uniform in [0,1]; streams = exhaustively every stream over alphabets of 2, 3, 4 values up to a length bound (ties everywhere), random streams of 10 kinds (normal, increasing, decreasing, small alphabet, zig-zag, trending up/down, constant, heavy-tailed x 1e10, heavy duplicates), the paper's 20 observations; after EVERY observation from the fifth on, quantile() and the publicly serialised marker heights/positions are compared with an independent transcription of Jain & Chlamtac's algorithm (tolerance max(64 ulp, 1e-10 range); comparison of a stream stops at the first decision of the reference that is within rounding of flipping). Plus the derived relation: arithmetic progressions fed increasing and decreasing are tracked within 0.10 range in both directions. Non-trivial = length >= 6, at least one marker adjustment, and a new minimum after initialisation, a tie with a marker or a linear-fallback adjustment; distinct = hash of (p bits, stream bits)");
+    cx.set_rule("cases = (p, stream): p from {0, 1, 0.5, 0.1, 0.2, 0.25, 0.9, 0.99} or uniform in [0,1]; streams = exhaustively every stream over alphabets of 2, 3, 4 values up to a length bound (ties everywhere), random streams of 10 kinds, one in six scaled by an exact power of two 2^±100…2^±900 (normal, increasing, decreasing, small alphabet, zig-zag, trending up/down, constant, heavy-tailed x 1e10, heavy duplicates), the paper's 20 observations; after EVERY observation from the fifth on, quantile() and the publicly serialised marker heights/positions are compared with an independent transcription of Jain & Chlamtac's algorithm (tolerance max(64 ulp, 1e-10 range); comparison of a stream stops at the first decision of the reference that is within rounding of flipping). Plus the derived relation: arithmetic progressions fed increasing and decreasing are tracked within 0.10 range in both directions. Non-trivial = length >= 6, at least one marker adjustment, and a new minimum after initialisation, a tie with a marker or a linear-fallback adjustment; distinct = hash of (p bits, stream bits)");
     cx.assume("reference model: harness/src/p2ref.rs, transcribed from the 1985 paper, not from the implementation");
     cx.assume("marker state is read from the serde representation (fields q and n); if those are not present the state comparison is skipped and counted");
     cx.label("fixed");
